@@ -57,7 +57,7 @@ fn content_for(channel: &str, lines: &[String], crlf: u64, final_nl: bool, rng: 
     }
 }
 
-fn flag_sweep_cfgs() -> Vec<Cfg> {
+fn flag_sweep_cfgs(triples: bool) -> Vec<Cfg> {
     let base = Cfg::default();
     let singles: Vec<Box<dyn Fn(&mut Cfg)>> = vec![
         Box::new(|c| c.digits = true),
@@ -97,6 +97,19 @@ fn flag_sweep_cfgs() -> Vec<Cfg> {
             out.push(c);
         }
     }
+    if triples {
+        for i in 0..singles.len() {
+            for j in i + 1..singles.len() {
+                for k in j + 1..singles.len() {
+                    let mut c = base.clone();
+                    singles[i](&mut c);
+                    singles[j](&mut c);
+                    singles[k](&mut c);
+                    out.push(c);
+                }
+            }
+        }
+    }
     // thresholds (only observable with repetition conversion)
     for rep in 1..=4u32 {
         for len in 1..=4u32 {
@@ -111,7 +124,7 @@ fn flag_sweep_cfgs() -> Vec<Cfg> {
 }
 
 /// Stratum 1: low-order sweep (deterministic given the seed, guarantees reach).
-fn sweep_cases(seed: u64, tier: &str, bins: &Binaries) -> Vec<Planned> {
+fn sweep_cases(seed: u64, tier: &str, bins: &Binaries, scratch: Option<&str>) -> Vec<Planned> {
     let mut out = vec![];
     let mut rng = Rng::new(derive(seed, &[0x5357]));
     let corpus = corpus();
@@ -156,7 +169,7 @@ fn sweep_cases(seed: u64, tier: &str, bins: &Binaries) -> Vec<Planned> {
     }
     // (b) flag sweep: every single flag, every pair, thresholds 1..=4 x 1..=4, on the flag-sensitive inputs, every channel
     let sens: Vec<&(String, Vec<String>)> = corpus.iter().filter(|(n, _)| n.starts_with("flag-sensitive") || n == "prefix-share").collect();
-    for cfg in flag_sweep_cfgs() {
+    for cfg in flag_sweep_cfgs(thorough) {
         for (k, (name, lines)) in sens.iter().enumerate() {
             for (ci, ch) in CHANNELS.iter().enumerate() {
                 // quick: rotate channels over inputs so that each (cfg, channel) and each (cfg, input) pair occurs
@@ -326,6 +339,79 @@ fn sweep_cases(seed: u64, tier: &str, bins: &Binaries) -> Vec<Planned> {
         c.note = "sweep/d empty path on stdin".into();
         out.push(Planned { case: c, stratum: "sweep-unusable" });
     }
+    // (e) real files in the real file system, no faults layered: anchors the memfd-backed cases to ordinary files
+    if let Some(dir) = scratch {
+        let _ = std::fs::create_dir_all(dir);
+        let mut k = 0;
+        for (name, lines) in corpus.iter().filter(|(n, _)| ["two", "words", "flag-sensitive", "utf8-widths", "empty-middle", "cr-at-end", "dup-heavy", "blank-only"].contains(&n.as_str())) {
+            for crlf in 0..2u64 {
+                for final_nl in [true, false] {
+                    if let Some(content) = content_for("file", lines, crlf, final_nl, &mut rng) {
+                        for ch in ["file", "file-via-stdin", "probe"] {
+                            k += 1;
+                            let path = format!("{}/real-{}.txt", dir, k);
+                            if std::fs::write(&path, &content).is_err() {
+                                continue;
+                            }
+                            let mut c = if ch == "probe" {
+                                make_probe_case(&content, &busy, &mut rng)
+                            } else {
+                                make_case(ch, lines, &content, &busy, &mut rng, true)
+                            };
+                            for a in c.argv.iter_mut() {
+                                *a = a.replace(PLANNED_PATH, &path);
+                            }
+                            if ch == "file-via-stdin" {
+                                c.stdin = String::from_utf8_lossy(&c.stdin).replace(PLANNED_PATH, &path).into_bytes();
+                            }
+                            c.path = path.clone();
+                            c.file_mode = FileMode::RealFs;
+                            c.note = format!("sweep/e real file {} crlf={} final_nl={}", name, crlf, final_nl);
+                            out.push(Planned { case: c, stratum: "sweep-real-fs" });
+                        }
+                    }
+                }
+            }
+        }
+        for (name, bytes) in [("empty", vec![]), ("invalid", vec![b'a', b'\n', 0xFF, b'\n'])] {
+            for ch in ["file", "file-via-stdin", "probe"] {
+                k += 1;
+                let path = format!("{}/real-{}.bin", dir, k);
+                if std::fs::write(&path, &bytes).is_err() {
+                    continue;
+                }
+                let mut c = if ch == "probe" {
+                    make_probe_case(&bytes, &Cfg::default(), &mut rng)
+                } else {
+                    make_case(ch, &[], &bytes, &Cfg::default(), &mut rng, true)
+                };
+                for a in c.argv.iter_mut() {
+                    *a = a.replace(PLANNED_PATH, &path);
+                }
+                if ch == "file-via-stdin" {
+                    c.stdin = String::from_utf8_lossy(&c.stdin).replace(PLANNED_PATH, &path).into_bytes();
+                }
+                c.path = path.clone();
+                c.file_mode = FileMode::RealFs;
+                c.note = format!("sweep/e real unusable file {}", name);
+                out.push(Planned { case: c, stratum: "sweep-real-fs" });
+            }
+        }
+    }
+    // (f) outside the property, logged and never judged: stdin is a terminal; stdout fails hard
+    {
+        let mut c = make_case("stdin", &["a".to_string()], b"a\n", &Cfg::default(), &mut rng, true);
+        c.tty = 1;
+        c.note = "probe/f stdin is a terminal".into();
+        out.push(Planned { case: c, stratum: "probe-not-judged" });
+        for errno in [32i64, 28, 5] {
+            let lines = vec!["a".to_string(), "b".to_string()];
+            let mut c = make_case("args", &lines, b"", &Cfg::default(), &mut rng, true);
+            c.events.push(("w1".into(), "err".into(), errno));
+            c.note = format!("probe/f stdout fails with errno {}", errno);
+            out.push(Planned { case: c, stratum: "probe-not-judged" });
+        }
+    }
     // usage errors (clap): zero / non-numeric / overflowing thresholds, surrogates without escape
     for bad in [
         vec!["--min-repetitions", "0", "a"],
@@ -391,6 +477,9 @@ fn random_case(rng: &mut Rng) -> Planned {
                 make_case(ch, &lines, &content, &cfg, rng, ff)
             };
             random_plan(&mut c, rng, hard);
+            if rng.chance(1, 4) {
+                c.env = random_env(rng);
+            }
             c.note = "search".into();
             return Planned { case: c, stratum: if hard { "search-hard" } else { "search-benign" } };
         }
@@ -745,7 +834,9 @@ fn mode_run(args: &[String]) -> i32 {
         return run_c10(seed, &tier, bins, jobs, evidence, &replay_dir, t0);
     }
 
-    let mut cases = sweep_cases(seed, &tier, &bins);
+    let scratch = arg_value(args, "--scratch-dir").unwrap_or_else(|| "/verif/target/tmp".into());
+    let scratch = format!("{}/simenv-real-{}-{}", scratch, seed, std::process::id());
+    let mut cases = sweep_cases(seed, &tier, &bins, Some(&scratch));
     let n_sweep = cases.len();
     let n_search: usize = arg_value(args, "--search")
         .and_then(|s| s.parse().ok())
@@ -830,7 +921,7 @@ fn mode_run(args: &[String]) -> i32 {
         *expect_kinds.entry(ek).or_insert(0) += 1;
         let nontriv = !d.obs.fired.is_empty() || d.obs.reads_r0 + d.obs.reads_rf >= 2;
         if nontriv {
-            let fp = fnv1a(format!("{:?}|{:?}|{:?}|{:?}|{:?}|{:?}", d.case.argv, d.case.stdin, d.case.file, d.case.events, d.case.dchunk, d.case.file_mode).as_bytes());
+            let fp = fnv1a(format!("{:?}|{:?}|{:?}|{:?}|{:?}|{:?}|{:?}", d.case.argv, d.case.stdin, d.case.file, d.case.events, d.case.dchunk, d.case.file_mode, d.case.env).as_bytes());
             nontrivial.insert(fp);
         }
         // reach probes
@@ -916,6 +1007,7 @@ fn mode_run(args: &[String]) -> i32 {
             "intercepted_call_records": calls,
             "simulated_time": "none: grex reads no clock; logical steps = intercepted libc calls",
             "reach_probes": probes,
+            "cases_with_extra_environment": done.iter().filter(|d| !d.case.env.is_empty()).count(),
             "determinism_double_runs": done2.len(),
             "distinct_nontrivial": nontrivial.len(),
             "rule": "one evaluation = one process lifetime of the real binary under one plan; distinct by (argv, stdin, file, plan); non-trivial = at least one scripted fault fired or the input stream was read with >= 2 read calls",
@@ -936,6 +1028,7 @@ fn mode_run(args: &[String]) -> i32 {
         n_viol,
         wall
     );
+    let _ = std::fs::remove_dir_all(&scratch);
     if n_viol > 0 {
         1
     } else {
@@ -1052,6 +1145,15 @@ fn mode_replay(args: &[String]) -> i32 {
             return 2;
         }
     };
+    if case.file_mode == FileMode::RealFs {
+        if let Some(parent) = std::path::Path::new(&case.path).parent() {
+            let _ = std::fs::create_dir_all(parent);
+        }
+        if let Err(e) = std::fs::write(&case.path, &case.file) {
+            println!("HARNESS-ERROR cannot recreate {}: {}", case.path, e);
+            return 2;
+        }
+    }
     let obs = match run_case(&case, &bins, 60) {
         Ok(o) => o,
         Err(e) => {
